@@ -4,7 +4,7 @@
 (*   Enum   : the case space (operator x operand pair x target form), printed    *)
 (*   Laws   : properties of the reference (JsOps / Dbl / JsConv) itself           *)
 (*   Judge  : records observed on the real engine, judged against JsOps          *)
-EXTENDS JsOpsAsIs, Json, IOUtils
+EXTENDS JsOpsAsIs, JsLit, Json, IOUtils
 
 S(txt) == VStr(U(txt))
 N(txt) == ToNumberV(S(txt))
@@ -48,24 +48,105 @@ UnOpSeq == <<"neg", "pos", "!", "~", "typeof", "void">>
 CondA == 6            \* index of 1
 CondB == 27           \* index of "a"
 
+\* ---------------- strings of look-alike characters (round 2) -----------------------------------
+\* The StringNumericLiteral grammar knows the ASCII digits, the ASCII signs, ".", "e" / "E", "0x" / "0o" / "0b" and the
+\* word Infinity, inside the ECMAScript white space set.  A host's conversion routines know more: every Unicode decimal
+\* digit, "digits" that are not decimal (superscripts, circled, Roman, CJK), other signs, words such as inf / nan, another
+\* white space set, a length limit.  The family puts a look-alike into every POSITION of the grammar
+\* (class = position x kind of substitute); the grid above contains Latin-script strings only.
+UStr(cls, us) == [ui_k \in 1..Len(us) |-> [cls |-> cls, u |-> us[ui_k]]]
+UDigitZeros == <<1632, 65296, 2406, 1776, 3664, 6160>>    \* digit zero of Arabic-Indic, fullwidth, Devanagari, Extended Arabic-Indic, Thai, Mongolian (Unicode Nd)
+UOtherDigits == << <<178, 185>>, <<9312, 9313>>, <<8321, 8322>>, <<8544, 8545>>, <<19968, 20108>>, <<189>>, <<9332>>, <<12295>> >>
+                                                          \* superscript, circled, subscript, Roman, CJK, one half, parenthesized, ideographic zero
+UEsWsSeq == <<12288, 8232, 160, 5760, 8192, 8193, 8194, 8195, 8196, 8197, 8198, 8199, 8200, 8201, 8202, 8233, 8239, 8287, 9, 10, 11, 12, 13, 32>>
+UHostWsSeq == <<133, 31, 28, 29, 30>>                     \* trimmed by the host's strip(), not white space in ECMAScript
+UNoWsSeq == <<8203, 6158, 8288, 0, 8204, 65534>>          \* white space for neither (zero width space, Mongolian vowel separator, ...)
+URep(c, n) == [ui_k \in 1..n |-> c]
+UniAll ==
+     UStr("digits-nd", [ui_k \in 1..Len(UDigitZeros) |-> <<UDigitZeros[ui_k] + 1, UDigitZeros[ui_k] + 2>>])
+  \o UStr("digits-other", UOtherDigits)
+  \o UStr("digit-mixed", << <<49, 1634>>, <<178, 50>>, <<1633, 50>>, <<49, 65298>>, <<9312, 48>> >>)
+  \o UStr("digit-frac", << <<49, 46, 1637>>, <<46, 65301>>, <<1633, 46, 53>>, <<49, 46, 178>> >>)
+  \o UStr("digit-exp", << <<49, 101, 1635>>, <<49, 101, 45, 65299>>, <<65297, 101, 51>>, <<49, 69, 179>> >>)
+  \o UStr("digit-signed", << <<45, 1633>>, <<43, 65297>>, <<45, 185>>, <<43, 2407>> >>)
+  \o UStr("digit-radix", << <<48, 120, 1633>>, <<48, 120, 65345>>, <<48, 98, 65297>>, <<48, 111, 1639>>, <<48, 120, 65313>> >>)
+  \o UStr("sign", << <<8722, 49>>, <<65291, 49>>, <<65293, 49>>, <<8211, 49>>, <<65123, 49>>, <<8208, 49>> >>)
+  \o UStr("point", << <<49, 65294, 53>>, <<49, 1643, 53>>, <<49, 183, 53>>, <<49, 12290, 53>> >>)
+  \o UStr("expmark", << <<49, 65349, 51>>, <<49, 1077, 51>>, <<49, 8495, 51>>, <<49, 65317, 51>> >>)
+  \o UStr("radixmark", << <<48, 65368, 49, 48>>, <<65296, 120, 49, 48>>, <<48, 1093, 49, 48>>, <<48, 215, 49, 48>>, <<48, 65336, 49, 48>> >>)
+  \o UStr("word-alike", << <<65321>> \o U("nfinity"), <<8734>>, U("Inf") \o <<305>> \o U("nity"), <<45, 8734>>, U("Infinit") \o <<65369>> >>)
+  \o UStr("word-host", << U("inf"), U("nan"), U("-inf"), U("+nan"), U("INFINITY"), U("Inf"), U("-Infinit"), U("1e"), U("Infinityx") >>)
+  \o UStr("ws-es-only", << <<65279, 49>>, <<49, 65279>> >>)
+  \o UStr("ws-host-lead", [ui_k \in 1..Len(UHostWsSeq) |-> <<UHostWsSeq[ui_k], 49>>])
+  \o UStr("ws-host-trail", [ui_k \in 1..Len(UHostWsSeq) |-> <<49, UHostWsSeq[ui_k]>>])
+  \o UStr("ws-both-lead", [ui_k \in 1..Len(UEsWsSeq) |-> <<UEsWsSeq[ui_k], 49>>])
+  \o UStr("ws-both-trail", [ui_k \in 1..Len(UEsWsSeq) |-> <<49, UEsWsSeq[Len(UEsWsSeq) + 1 - ui_k]>>])
+  \o UStr("ws-none", << <<8203, 49>>, <<49, 6158>>, <<8288, 49>>, <<49, 0>>, <<8204, 49>>, <<49, 65534>> >>)
+  \o UStr("ws-inner", << <<45, 32, 49>>, <<49, 12288, 101, 51>>, <<48, 32, 120, 49>>, <<43, 160, 49>>, <<49, 46, 32, 53>> >>)
+  \o UStr("long", << URep(48, 4400) \o <<55>>, URep(32, 4400) \o <<49>> \o URep(10, 300), <<48, 46>> \o URep(48, 4400) \o <<49>>,
+                     <<49>> \o URep(48, 400), <<48, 120>> \o URep(48, 4400) \o <<102>>, <<45>> \o URep(48, 4400) >>)
+NUni == Len(UniAll)
+UniClasses == {UniAll[ui_k].cls : ui_k \in 1..NUni}
+URank(k) == Cardinality({ui_j \in 1..k : UniAll[ui_j].cls = UniAll[k].cls})
+\* quick: the first two members of every class (so every class is there by construction); thorough: all
+UniIdx == {NGrid + ui_k : ui_k \in {ui_j \in 1..NUni : ~Quick \/ URank(ui_j) <= 2}}
+AllSeq == GridSeq \o [ui_k \in 1..NUni |-> VStr(UniAll[ui_k].u)]
+NAll == NGrid + NUni
+\* partners of a look-alike string (both orders, every binary operator): a number (ToNumber path) and a string (+ < == between strings)
+UniPartnerIdx == IF Quick THEN {6, 21} ELSE TargetIdx
+UniCmpdPartner == 6
+UniTargets == <<"local", "computed">>
+
+\* ---------------- operands written as source text (round 2) -------------------------------------
+\* So far every operand reached the script as a host value (Context.set).  LitIdx: values that are ALSO written as
+\* literals, both operands in one program (one function body, one constant pool): every binary operator on the first
+\* spelling of each, the other spellings next to the partners below; compound assignment `var x = <lit>; x op= <lit>` in
+\* every target form; unary / update / conditional on every spelling.
+LitIdx == IF Quick THEN (1..18) \cup {19, 20, 25, 28, 30, 31} ELSE 1..64
+LitAltPartners == IF Quick THEN {2, 3, 6, 25} ELSE TargetIdx
+LitTgtIdx == IF Quick THEN {2, 3, 7, 9, 20, 28} ELSE {1, 2, 3, 6, 7, 9, 14, 20, 27, 28, 31}
+LitAltOps == <<"+", "-", ",">>
+Lits(gi) == LitSpellings(AllSeq[gi])
+LitCombos(ia, ib) ==
+  LET na == Len(Lits(ia))  nb == Len(Lits(ib))
+      tgt == ia \in LitTgtIdx /\ ib \in LitTgtIdx
+  IN <<[sa |-> 1, sb |-> 1, bin |-> BinOpSeq, cmpd |-> IF tgt THEN CmpdOpSeq ELSE <<>>]>>
+     \o (IF ib \in LitAltPartners
+         THEN [li_k \in 1..(na - 1) |-> [sa |-> li_k + 1, sb |-> 1, bin |-> LitAltOps, cmpd |-> IF tgt /\ ~Quick THEN CmpdOpSeq ELSE <<>>]] ELSE <<>>)
+     \o (IF ia \in LitAltPartners
+         THEN [li_k \in 1..(nb - 1) |-> [sa |-> 1, sb |-> li_k + 1, bin |-> LitAltOps, cmpd |-> IF tgt /\ ~Quick THEN CmpdOpSeq ELSE <<>>]] ELSE <<>>)
+\* the sub-grids cover what they are meant to cover (a dropped class fails the specification run, not silently)
+SpaceLaw ==
+  /\ \A cl \in UniClasses : \E gi \in UniIdx : UniAll[gi - NGrid].cls = cl
+  /\ LitIdx \subseteq GridIdx /\ LitTgtIdx \subseteq LitIdx /\ LitAltPartners \subseteq LitIdx /\ UniPartnerIdx \subseteq GridIdx
+  /\ {AllSeq[gi] : gi \in LitTgtIdx \cap LitAltPartners} \supseteq {N("0"), N("-0")}
+  /\ \A kd \in PrimKinds : \E gi \in LitIdx : AllSeq[gi].k = kd
+  /\ \A gi \in LitIdx : AllSeq[gi].k = "num" /\ DFromW(AllSeq[gi].w).c \in {"zero", "fin"} => Len(Lits(gi)) >= 2
+
 \* ---------------- Enum: print the case space --------------------------------------------------
 VARIABLES ph, cur, rec_i          \* rec_i: never a name that library operators bind
 vars == <<ph, cur, rec_i>>
 EnumInit == ph = "start" /\ cur = [a |-> 0, b |-> 0] /\ rec_i = 0
+PairPartners(ia) == IF ia \in UniIdx THEN UniPartnerIdx ELSE GridIdx \cup (IF ia \in UniPartnerIdx THEN UniIdx ELSE {})
 EnumNext ==
   \/ /\ ph = "start"
-     /\ \E ia \in GridIdx : ph' = "row" /\ cur' = [a |-> ia, b |-> 0] /\ UNCHANGED rec_i
+     /\ \E ia \in GridIdx \cup UniIdx : ph' = "row" /\ cur' = [a |-> ia, b |-> 0] /\ UNCHANGED rec_i
   \/ /\ ph = "row"
-     /\ \E ib \in GridIdx : ph' = "pair" /\ cur' = [a |-> cur.a, b |-> ib] /\ UNCHANGED rec_i
+     /\ \E ib \in PairPartners(cur.a) : ph' = "pair" /\ cur' = [a |-> cur.a, b |-> ib] /\ UNCHANGED rec_i
 EnumEmit ==
-  CASE ph = "start" -> PrintT(ToJson([kind |-> "grid", vals |-> GridSeq, targets |-> Targets]))
+  CASE ph = "start" -> PrintT(ToJson([kind |-> "grid", vals |-> AllSeq, ngrid |-> NGrid, targets |-> Targets,
+                                      lits |-> [gi \in 1..NAll |-> Lits(gi)]]))
     [] ph = "row" -> PrintT(ToJson([kind |-> "single", a |-> cur.a, un |-> UnOpSeq, upd |-> <<"++", "--">>,
-                                    targets |-> IF cur.a \in TargetIdx THEN Targets ELSE <<"global", "dot">>,
+                                    targets |-> IF cur.a \in TargetIdx \cup UniIdx THEN Targets ELSE <<"global", "dot">>,
                                     untargets |-> <<"global", "local">>,
-                                    cond |-> [a |-> CondA, b |-> CondB]]))
-    [] ph = "pair" -> PrintT(ToJson([kind |-> "pair", a |-> cur.a, b |-> cur.b, bin |-> BinOpSeq,
-                                     cmpd |-> IF cur.a \in TargetIdx /\ cur.b \in TargetIdx THEN CmpdOpSeq ELSE <<>>,
-                                     targets |-> Targets]))
+                                    cond |-> [a |-> CondA, b |-> CondB],
+                                    lit |-> IF cur.a \in LitIdx THEN [li_k \in 1..Len(Lits(cur.a)) |-> li_k] ELSE <<>>]))
+    [] ph = "pair" -> LET uni == cur.a \in UniIdx \/ cur.b \in UniIdx IN
+                      PrintT(ToJson([kind |-> "pair", a |-> cur.a, b |-> cur.b, bin |-> BinOpSeq,
+                                     cmpd |-> IF (cur.a \in TargetIdx /\ cur.b \in TargetIdx) \/ (cur.a \in UniIdx /\ cur.b = UniCmpdPartner)
+                                              THEN CmpdOpSeq ELSE <<>>,
+                                     targets |-> IF uni THEN UniTargets ELSE Targets,
+                                     lit |-> IF cur.a \in LitIdx /\ cur.b \in LitIdx THEN LitCombos(cur.a, cur.b) ELSE <<>>]))
 
 \* ---------------- Laws of the reference -------------------------------------------------------
 IsT(v) == v.k = "bool" /\ v.b
@@ -140,13 +221,31 @@ SingleLaws(a) ==
            /\ \A op \in UpdateOps : \A pre \in BOOLEAN :
                  LET u1 == AUpdOp(op, pre, AIn(a, ir, {}), {})  u0 == UpdOp(op, pre, a)
                  IN AOut(u1.res) = u0.res /\ AOut(u1.after) = u0.after
-LawsHold == CASE ph = "start" -> \A gi \in GridIdx : GridSeq[gi].k \in PrimKinds /\ (GridSeq[gi].k = "num" => NumResultOK(GridSeq[gi]))
-              [] ph = "row" -> SingleLaws(GridSeq[cur.a])
-              [] ph = "pair" -> PairLaws(GridSeq[cur.a], GridSeq[cur.b])
+\* every spelling of a value, read back, denotes that value; the first spelling of a number is its ToString
+LitLaws(a) ==
+  LET sps == LitSpellings(a)
+  IN /\ sps # <<>>
+     /\ \A li_k \in 1..Len(sps) : LitValue(sps[li_k].t) = a
+     /\ (a.k = "num" => sps[1].t = ToStringU(a) \/ (WIsZero(a.w) /\ WSign(a.w) = 1))
+     /\ \A li_k, li_j \in 1..Len(sps) : li_k # li_j => sps[li_k].t # sps[li_j].t
+LawsHold == CASE ph = "start" -> /\ \A gi \in GridIdx \cup UniIdx : AllSeq[gi].k \in PrimKinds /\ (AllSeq[gi].k = "num" => NumResultOK(AllSeq[gi]))
+                                 /\ SpaceLaw
+              [] ph = "row" -> SingleLaws(AllSeq[cur.a]) /\ LitLaws(AllSeq[cur.a])
+              [] ph = "pair" -> PairLaws(AllSeq[cur.a], AllSeq[cur.b])
               [] OTHER -> TRUE
 
 \* ---------------- Judge ------------------------------------------------------------------------
-Recs == ndJsonDeserialize(IOEnv.OBS_FILE)     \* [id, f, op, tgt, pre, a, b, c, intrep, tree, out]
+Recs == ndJsonDeserialize(IOEnv.OBS_FILE)     \* [id, f, op, tgt, pre, a, b, c, la, lb, lc, intrep, tree, out]
+\* operands written as source text (la / lb / lc, tree leaves' lt; <<>> = handed over as a host value): the judge reads the
+\* literal itself; the value the enumeration attached to it must be what the text denotes
+LitOK(txt, v) == txt = <<>> \/ LitValue(txt) = v
+RECURSIVE TreeLitsOK(_)
+TreeLitsOK(tr) == CASE tr.t = "lit" -> LitOK(tr.lt, tr.v)
+                    [] tr.t = "un" -> TreeLitsOK(tr.x)
+                    [] tr.t = "bin" -> TreeLitsOK(tr.l) /\ TreeLitsOK(tr.r)
+                    [] tr.t = "cond" -> TreeLitsOK(tr.c) /\ TreeLitsOK(tr.x) /\ TreeLitsOK(tr.y)
+                    [] OTHER -> TRUE
+LitsOK(r) == LitOK(r.la, r.a) /\ LitOK(r.lb, r.b) /\ LitOK(r.lc, r.c) /\ TreeLitsOK(r.tree)
 NoTarget == Undef
 Expect(r) ==
   CASE r.f = "bin" -> [res |-> BinOp(r.op, r.a, r.b), after |-> NoTarget]
@@ -168,7 +267,8 @@ ShowExp(e) == [res |-> e.res, after |-> e.after]
 Verdict(r) ==
   LET exp == Expect(r)
       fun == OutMatches(r.out, exp)
-  IN IF fun /\ (~RelApplies(r) \/ RelOK(r)) THEN [v |-> "pass", dev |-> "", exp |-> ShowExp(exp)]
+  IN IF ~LitsOK(r) THEN [v |-> "spec-inconsistent", dev |-> "", exp |-> ShowExp(exp)]               \* a literal does not denote its value: machinery
+     ELSE IF fun /\ (~RelApplies(r) \/ RelOK(r)) THEN [v |-> "pass", dev |-> "", exp |-> ShowExp(exp)]
      ELSE IF fun \/ (RelApplies(r) /\ RelOK(r) /\ r.out.after = exp.after)
           THEN [v |-> "spec-inconsistent", dev |-> "", exp |-> ShowExp(exp)]      \* the two formulations disagree: machinery
      ELSE [v |-> "mismatch", dev |-> Explain(r, exp), exp |-> ShowExp(exp)]
